@@ -6,6 +6,7 @@ import (
 	"encoding/json"
 	"flag"
 	"fmt"
+	"google.golang.org/protobuf/encoding/protowire"
 	"io"
 	"math/rand"
 	"os"
@@ -31,7 +32,7 @@ type TypeInfo struct {
 	Flavour string // gogo | gv2
 	Base    string
 	GoName  string
-	New     func() interface{} // pointer to a fresh generated struct
+	New     func() interface{}     // pointer to a fresh generated struct
 	Exts    map[string]interface{} // extension descriptors by kind name (extendable corpus messages only)
 }
 
@@ -530,6 +531,18 @@ func (d *Driver) FamMutate(perType int, dense bool) {
 				mb[pos] = x
 				d.unmarshalOne(ti, mb, false, fmt.Sprintf("subst-%d-%02x", pos, x), false)
 			}
+			// wire-type flips: the three wire-type bits of a (single-byte) key replaced, at every nesting level - inside map entries and
+			// sub-messages too, where the reference runtime skips a field of an unexpected wire type as unknown
+			for _, pos := range keyOffsets(b, 0, 0) {
+				for wt := byte(0); wt < 8; wt++ {
+					if wt == b[pos]&7 || (!dense && d.R.Intn(5) > 0) {
+						continue
+					}
+					mb := append([]byte{}, b...)
+					mb[pos] = mb[pos]&^7 | wt
+					d.unmarshalOne(ti, mb, false, fmt.Sprintf("wtflip-%d-%d", pos, wt), false)
+				}
+			}
 			// length inflation: replace a byte by a huge varint
 			for k := 0; k < 3; k++ {
 				pos := d.R.Intn(len(b))
@@ -551,6 +564,37 @@ func (d *Driver) FamMutate(perType int, dense bool) {
 			d.unmarshalOne(ti, rb, false, "random-bytes", false)
 		}
 	}
+}
+
+// keyOffsets returns the offsets of the single-byte field keys of b, descending into every length-delimited payload that is
+// itself a well-formed message (a heuristic: strings that happen to parse are harmless extra mutation points).
+func keyOffsets(b []byte, base, depth int) []int {
+	var out []int
+	i := 0
+	for i < len(b) {
+		num, typ, n := protowire.ConsumeTag(b[i:])
+		if n < 0 || num < 1 {
+			return nil
+		}
+		if n == 1 {
+			out = append(out, base+i)
+		}
+		vn := protowire.ConsumeFieldValue(num, typ, b[i+n:])
+		if vn < 0 {
+			return nil
+		}
+		if typ == protowire.BytesType && depth < 6 {
+			pay, pn := protowire.ConsumeBytes(b[i+n:])
+			if pn > 0 && len(pay) > 0 {
+				start := base + i + n + (pn - len(pay))
+				if sub := keyOffsets(pay, start, depth+1); sub != nil {
+					out = append(out, sub...)
+				}
+			}
+		}
+		i += n + vn
+	}
+	return out
 }
 
 // WriteSchema writes the schema-as-data for the TLA+ side.
